@@ -129,6 +129,10 @@ class RealEnv:
             f = f * hi / 4
         return f
 
+    def grad_of(self, scalar, leaf):
+        g = self.tn.autograd.grad(scalar.reshape([]), leaf, retain_graph=True, allow_unused=True)[0]
+        return g if g is not None else self.tn.zeros_like(leaf)
+
     def dim(self, name, lo=1, hi=4):
         if self.given is not None:
             v = self.given[name]['values']
@@ -180,6 +184,9 @@ class RealEnv:
 
     def sos_fact(self, t):
         pass
+
+    def sumsq(self, t):
+        return self.tn.sum(t * t)
 
     def lemma(self, label, a, b):
         return self.eq(label, a, b)
